@@ -23,6 +23,13 @@ def make_input(rng):
                 if len(p.words) > 1 and p.words[1][0] == "TDH" and rng.random() < 0.4:
                     t = its.tdh_fields(p.words[1][1])
                     p.words[1][1] = its.tdh(t["trigger_type"], t["internal"], t["no_data"], 1, t["bc"], t["orbit"] ^ 1)   # E42 + E444
+        # frame-level errors on several staves (their messages carry the FEE id): one lane's data words removed from a frame
+        for lp in s.pkts:
+            for p in lp:
+                ids = [w[9] for k, w in p.words if k == "DATA"]
+                if ids and rng.random() < 0.3:
+                    victim = ids[0]
+                    p.words = [[k, w] for k, w in p.words if not (k == "DATA" and w[9] == victim)]
         for _ in range(rng.choice([0, 3, 10])):
             mutate.mutate_once(rng, s, allow=("word", "word", "pad"))
         mutate.remerge(rng, s)
